@@ -18,7 +18,8 @@ def gen_cases(run, module, cfg, name=None, workers=None, timeout=3000, simulate=
 
 
 def replay_load(run, cases, trace_module, trace_cfg, build_features=("json",), variant="json", fmt="json",
-                skip_icu=False, tag="", per_case_timeout=20, key_of=None, perm_seed=None, keep_dirs=False):
+                skip_icu=False, tag="", per_case_timeout=20, key_of=None, perm_seed=None, keep_dirs=False,
+                trace_env=None):
     """cases: list of case dicts (ids are assigned here, 1-based = line numbers of cases.ndjson)."""
     wd = os.path.join(run.workdir, "load" + tag)
     shutil.rmtree(wd, ignore_errors=True)
@@ -36,7 +37,7 @@ def replay_load(run, cases, trace_module, trace_cfg, build_features=("json",), v
     vp.write_ndjson(drv_in, rows)
     trace_path = os.path.join(wd, "trace.ndjson")
     crashes = vp.run_driver(binary, drv_in, trace_path, len(rows), per_case_timeout=per_case_timeout)
-    summary, rejects, res = vp.trace_validate(trace_module, trace_cfg, wd, trace_path, cases_path)
+    summary, rejects, res = vp.trace_validate(trace_module, trace_cfg, wd, trace_path, cases_path, env=trace_env)
     if summary["consumed"] != summary["events"]:
         raise vp.ToolError("trace spec %s consumed %s of %s events" % (trace_module, summary["consumed"], summary["events"]))
     run.traces += len(rows)
